@@ -46,7 +46,7 @@ def menu(tier):
                 scn.append(S.mk(f'{inp}/{mname}/{strat}/j{j}/{ms}/sched',
                                 inp, model, strat, j, S.MUTATOR_SETS[ms],
                                 budget=b1))
-    b2 = 2 if tier == 'thorough' else 1
+    b2 = 3 if tier == 'thorough' else 2
     for strat in S.STRATEGIES:
         for j in (2, 3):
             scn.append(S.mk(f'micro/{strat}/j{j}/sched2', 'micro',
@@ -55,6 +55,9 @@ def menu(tier):
             scn.append(S.mk(f'asserts8/{strat}/j{j}/erase/sched2',
                             'asserts8', ('count', 'assert', 3), strat, j,
                             S.MUTATOR_SETS['erase'], budget=b2 - 1))
+    for x in scn:
+        if x.get('budget', 0) > 0:
+            x['prune'] = True
     return scn
 
 
